@@ -1111,6 +1111,36 @@ impl ConfigBuilder {
     pub fn build(&self) -> Result<Config, ConfigBuilderError> {
         // check all constraints on config
 
+        if self.config.protocol.default_max_transmit_size < 100 {
+            return Err(ConfigBuilderError::MaxTransmissionSizeTooSmall);
+        }
+
+        // The default mesh parameters apply to every topic without a topic specific configuration.
+        let TopicMeshConfig {
+            mesh_n,
+            mesh_n_low,
+            mesh_n_high,
+            mesh_outbound_min,
+        } = self.config.topic_configuration.default_mesh_params;
+
+        if !(mesh_outbound_min <= mesh_n_low && mesh_n_low <= mesh_n && mesh_n <= mesh_n_high) {
+            return Err(ConfigBuilderError::MeshParametersInvalid);
+        }
+
+        if mesh_outbound_min * 2 > mesh_n {
+            return Err(ConfigBuilderError::MeshOutboundInvalid);
+        }
+
+        // The mesh maintenance in the heartbeat relies on `mesh_n_low <= mesh_n <= mesh_n_high`
+        // for every topic, whether or not the topic also has a topic specific transmit size.
+        for topic_mesh_params in self.config.topic_configuration.topic_mesh_params.values() {
+            if !(topic_mesh_params.mesh_n_low <= topic_mesh_params.mesh_n
+                && topic_mesh_params.mesh_n <= topic_mesh_params.mesh_n_high)
+            {
+                return Err(ConfigBuilderError::MeshParametersInvalid);
+            }
+        }
+
         let pre_configured_topics = self.config.protocol.max_transmit_sizes.keys();
         for topic in pre_configured_topics {
             if self.config.protocol.max_transmit_size_for_topic(topic) < 100 {
